@@ -87,10 +87,18 @@ def sh(cmd, cwd, env=None, timeout=3600):
     e = dict(os.environ, CARGO_NET_OFFLINE="true")
     if env:
         e.update(env)
+    import signal
+    p = subprocess.Popen(cmd, cwd=cwd, env=e, stdout=subprocess.PIPE, stderr=subprocess.STDOUT, text=True, start_new_session=True)
     try:
-        p = subprocess.run(cmd, cwd=cwd, env=e, capture_output=True, text=True, timeout=timeout)
-        return p.returncode, p.stdout + p.stderr
+        out, _ = p.communicate(timeout=timeout)
+        return p.returncode, out
     except subprocess.TimeoutExpired:
+        # a mutant may loop forever: kill the whole process group (cargo + the test binary)
+        try:
+            os.killpg(p.pid, signal.SIGKILL)
+        except ProcessLookupError:
+            pass
+        p.wait()
         return 124, "timeout"
 
 
@@ -145,7 +153,7 @@ def worker(i, jobs, results, lock):
                 if rc != 0:
                     rec["status"] = "does-not-compile"
                     continue
-                rc, out = sh(["cargo", "test", "--workspace", "--no-fail-fast", "--offline"], repo, env, timeout=1800)
+                rc, out = sh(["cargo", "test", "--workspace", "--no-fail-fast", "--offline"], repo, env, timeout=600)
                 if rc != 0:
                     rec["status"] = "killed-by-the-test-suite"
                     continue
